@@ -11,6 +11,7 @@ import (
 
 	"golang.org/x/tools/go/packages"
 
+	"mpcverif/internal/dispatch"
 	"mpcverif/internal/load"
 	"mpcverif/internal/report"
 )
@@ -28,7 +29,7 @@ import (
 // from a multiplier shows up as a shape and a bit.
 func C07adder(p *load.Program, run *report.Run) {
 	const rule = "builder-words"
-	run.Rule(rule, "NewAdder, NewSubtractor, the eight ordered comparators, NewEqComparator, NewNeqComparator (operand widths 1..3, result widths up to max+2, one bit for comparisons, both targets) and the multipliers NewArrayMultiplier, NewWallaceMultiplier, NewKaratsubaMultiplier with threshold 3, NewMultiplier (operand widths 1..4, 1..5 for Karatsuba, result widths up to nx+ny), and the unsigned dividers NewUDividerLong/Restoring/Array/NewUDivider on the Yao target (operands of 1..4 bits, every non-zero divisor), NewUDivider on the GMW target (the Goldschmidt divider with its reciprocal ROM, logarithmic shifters, Kogge-Stone adders and correction step; operands of 1..8 bits, thorough 1..10, every non-zero divisor), interpreted gate by gate from source: each result wire is driven exactly once and its truth table over the operand bits is that of the word-level operation (signed comparisons on operands of one width)")
+	run.Rule(rule, "NewAdder, NewSubtractor, the eight ordered comparators, NewEqComparator, NewNeqComparator (operand widths 1..3, result widths up to max+2, one bit for comparisons, both targets) and the multipliers NewArrayMultiplier, NewWallaceMultiplier, NewKaratsubaMultiplier with threshold 3, NewMultiplier (operand widths 1..4, 1..5 for Karatsuba, result widths up to nx+ny), and the unsigned dividers NewUDividerLong/Restoring/Array/NewUDivider on the Yao target (operands of 1..4 bits, every non-zero divisor), NewUDivider on the GMW target (the Goldschmidt divider with its reciprocal ROM, logarithmic shifters, Kogge-Stone adders and correction step; operands of 1..8 bits, thorough 1..10, every non-zero divisor), interpreted gate by gate from source: each result wire is driven exactly once, no gate reads a result wire (Wire.Assign does not schedule the consumers of a wire flagged as output, which result wires are in streaming mode), and its truth table over the operand bits is that of the word-level operation (signed comparisons on operands of one width)")
 	pkg := p.ByPath[load.Module+"/compiler/circuits"]
 	if pkg == nil {
 		run.Undecided(rule, "compiler/circuits", "", "package not loaded")
@@ -104,6 +105,26 @@ func C07adder(p *load.Program, run *report.Run) {
 		{"NewKaratsubaMultiplier", false, false, func(x, y, nx, ny, nz int) int { return x * y }, 5, true, false},
 		{"NewMultiplier", false, false, func(x, y, nx, ny, nz int) int { return x * y }, 4, true, true},
 	}
+	// result wires are sinks when Wire.Assign stops at wires flagged as outputs
+	resultWiresAreSinks = false
+	if _, fd := dispatch.FindFunc(p, "compiler/circuits", "Wire", "Assign"); fd != nil && fd.Body != nil {
+		for _, st := range fd.Body.List {
+			ifs, ok := st.(*ast.IfStmt)
+			if !ok || ifs.Else != nil || len(ifs.Body.List) != 1 {
+				continue
+			}
+			if _, isRet := ifs.Body.List[0].(*ast.ReturnStmt); !isRet {
+				continue
+			}
+			if c, ok := ifs.Cond.(*ast.CallExpr); ok {
+				if sel, ok := c.Fun.(*ast.SelectorExpr); ok && sel.Sel.Name == "Output" {
+					resultWiresAreSinks = true
+				}
+			}
+			break
+		}
+	}
+	run.Count("result-wires-are-sinks", map[bool]int{false: 0, true: 1}[resultWiresAreSinks])
 	total := 0
 	for _, sp := range specs {
 		top := decls[sp.name]
@@ -312,6 +333,9 @@ type gateWorld struct {
 	target int64
 	ops    map[int64]string
 	consts map[string]int64
+	// results: the wires of the top-level result vectors; readsResult: the first of them a gate reads
+	results     map[string]bool
+	readsResult string
 	// modelOnly: methods whose source the interpreter could not follow (their model in the hook is used)
 	modelOnly map[string]bool
 }
@@ -320,6 +344,9 @@ func (g *gateWorld) read(v wv) (*big.Int, bool) {
 	s, ok := v.(string)
 	if !ok {
 		return nil, false
+	}
+	if g.results[s] && g.readsResult == "" {
+		g.readsResult = s
 	}
 	t, ok := g.table[s]
 	return t, ok
@@ -643,6 +670,9 @@ func (g *gateWorld) fromSource(w *wInterp, fd *ast.FuncDecl, c *ast.CallExpr) (w
 	return nil, false
 }
 
+// resultWiresAreSinks: Wire.Assign returns at once for a wire flagged as output (decided from its source on every run).
+var resultWiresAreSinks bool
+
 var gateOps map[int64]string
 var gateConsts map[string]int64
 
@@ -687,6 +717,11 @@ func builderShape3(pkg *packages.Package, decls map[string]*ast.FuncDecl, top *a
 	for i := range z {
 		z[i] = fmt.Sprintf("z%d", i)
 	}
+	g.results = map[string]bool{}
+	for i := 0; i < nz; i++ {
+		g.results[fmt.Sprintf("z%d", i)] = true
+		g.results[fmt.Sprintf("r%d", i)] = true
+	}
 	w := &wInterp{pkg: pkg}
 	w.hook = g.hook(w)
 	w.push()
@@ -727,6 +762,9 @@ func builderShape3(pkg *packages.Package, decls map[string]*ast.FuncDecl, top *a
 	}
 	if o.kind != "return" || o.err {
 		return "the builder returns an error for a well-formed shape"
+	}
+	if g.readsResult != "" && resultWiresAreSinks {
+		return fmt.Sprintf("a gate of the builder reads the result wire %s: when the result wires are flagged as circuit outputs before the builder runs (streaming mode, constant folding) Wire.Assign does not schedule the gates fed by an output wire, and everything computed from %s is dropped from the circuit", g.readsResult, g.readsResult)
 	}
 	outs := []struct {
 		name string
